@@ -56,6 +56,14 @@ def signature(inv, rec, tag):
         inv, o["alg"], int(o["ns"] < rec["U"]), o["hasMin"], o["hasMax"], tag)
 
 
+def report_errors(ctx, errors, prefix):
+    """compute() raised on an input of the quantifier: no layout was computed, so the property cannot hold for it."""
+    for e in errors:
+        if e.get("error") == "RecursionError":
+            continue
+        ctx.report("%sComputeCompletes err=%s" % (prefix, e["error"]), "labels=%d" % e.get("n", 0), {"error_record": e})
+
+
 def check(ctx, cfg, recs, meta, prefix, per_shard=150):
     fails = ctx.validate("LayoutTrace", cfg, recs, per_shard=per_shard)
     for idx, inv in fails:
